@@ -701,6 +701,43 @@ fn c15_tree3_mixed() {
     c15_tree3(0, 1, 0);
 }
 
+// @verif props=C09 tier=quick ob=cost_spill fn=InsertionCost::from_iter,InsertionCost::add,InsertionCost::sub bounds="7 components (one more than the inline capacity 6: the vector spills to the heap), integer-valued |v|<=2^24; right operand empty / one component"
+#[kani::proof]
+#[kani::unwind(10)]
+fn c09_cost_spill_len7() {
+    let mut d = [0.0f64; 7];
+    let mut idx = 0;
+    while idx < 7 {
+        let v: i32 = kani::any();
+        kani::assume(v > -(1 << 24) && v < (1 << 24));
+        d[idx] = v as f64;
+        idx += 1;
+    }
+    // collect keeps every component
+    let x: InsertionCost = d.iter().copied().collect();
+    assert!(x.data.len() == 7);
+    let mut idx = 0;
+    while idx < 7 {
+        assert!(x.data[idx] == d[idx]);
+        idx += 1;
+    }
+    // + and - with a shorter operand keep the length and the tail
+    let w: i32 = kani::any();
+    kani::assume(w > -(1 << 24) && w < (1 << 24));
+    let y = InsertionCost::new(&[w as f64]);
+    let sum = &x + &y;
+    let back = &sum - &y;
+    assert!(sum.data.len() == 7 && back.data.len() == 7);
+    assert!(sum.data[0] == d[0] + w as f64 && sum.data[6] == d[6]);
+    let mut idx = 0;
+    while idx < 7 {
+        assert!(back.data[idx] == d[idx]);
+        idx += 1;
+    }
+    kani::cover!(d[6] != 0., "last component non-zero");
+    std::mem::forget((x, y, sum, back));
+}
+
 // Concrete-playback replays (`cargo kani playback`) are compiled from here; the file is written by /verif/check.
 #[cfg(all(kani, test))]
 mod verif_playback {
